@@ -300,7 +300,7 @@ def run_history(rec, case):
                                               A.R.ended(sa)))
         kinds = sorted(set(a[0] for a in acts))
         rec.key('%s/%s' % ('+'.join(kinds), [x[1:] for x in ot['live']]))
-        if rec.evaluations % 101 == 0:
+        if rec.evaluations % 101 == 1:
             rec.sample({'actions': acts[:25], 'final': ot})
     finally:
         T.sim.teardown()
